@@ -207,7 +207,7 @@ def available_pieces(cx, loaded=None):
     for rel, what in snap.items():
         if what[0] != "file":
             continue
-        in_scan = any(rel[:len(s)] == s for s in scan_rels)
+        in_scan = any(rel[:len(s)] == s for s in scan_rels) and not (len(what) > 3 and what[3])      # a walk does not list symbolic links
         in_export = rel[:len(cx.export_rel)] == cx.export_rel
         cand_by_len.setdefault(len(what[1]), []).append((rel, what[1], in_scan, in_export))
     for t in cx.torrents:
